@@ -45,6 +45,9 @@ def runCase (line : String) : String :=
       | some n, some d => String.ofList (skeleton (listPage [some (n, d)]))
       | _, _ => "bad-case"
     | _ => "bad-case"
+  | ["metrics", _, _, _] =>
+    -- the exposition uses ids as label values and never the router's text: the model's answer is constant
+    "same=true wellformed=true"
   | _ => "bad-case"
 
 partial def loop (h : IO.FS.Stream) (out : IO.FS.Stream) : IO Unit := do
